@@ -7,6 +7,7 @@ import (
 	"go/constant"
 	"go/token"
 	"go/types"
+	"regexp"
 	"sort"
 	"strconv"
 	"strings"
@@ -114,10 +115,8 @@ func writeSites(fn *ssa.Function) []writeSite {
 		}
 		args := ci.Common().Args
 		ws := writeSite{call: ci, method: method, sb: args[0], arg: args[1]}
-		if f, ops, ok := sprintfOf(args[1]); ok {
-			ws.format, ws.args, ws.isFmt = f, ops, true
-		} else if f, ops, ok := concatTemplate(args[1]); ok {
-			// "a" + x + "b"  is treated like Sprintf("a%sb", x)
+		if f, ops, ok := flatTemplate(args[1], 0); ok {
+			// "a" + x + "b"  is treated like Sprintf("a%sb", x); nested templates are spliced in
 			ws.format, ws.args, ws.isFmt = f, ops, true
 		} else if s, ok := strConst(args[1]); ok {
 			ws.format, ws.konst = s, true
@@ -208,6 +207,8 @@ func concatTemplate(v ssa.Value) (string, []ssa.Value, bool) {
 // builder by helper functions it calls (virtual inlining, depth 2): a helper's write is
 // reported at the call instruction in fn, with its operands and its condition rewritten
 // into fn's namespace ($k -> k-th argument) and conjoined with the condition of the call.
+var bareParamRe = regexp.MustCompile(`^\$(\d+)$`)
+
 func (c *Ctx) sitesOf(fn *ssa.Function) []writeSite {
 	return c.sitesDepth(fn, 0, map[*ssa.Function]bool{})
 }
@@ -284,6 +285,28 @@ func (c *Ctx) sitesDepth(fn *ssa.Function, depth int, onStack map[*ssa.Function]
 			ns := writeSite{call: ci, method: sub.method, sb: args[k], format: sub.format, isFmt: sub.isFmt, konst: sub.konst, via: g, depth: sub.depth + 1, inner: sub.inner, origin: sub.origin}
 			for _, t := range sub.argT {
 				ns.argT = append(ns.argT, c.substParams(fn, ci, t))
+			}
+			// an operand that is a parameter of the helper, for which this caller passes a
+			// formatted text (`label := Sprintf("%s_%d", n, id); helper(sb, label)`), is
+			// spliced in: the write has the same template as if it were formatted in place
+			for i := len(sub.argT) - 1; i >= 0 && ns.isFmt; i-- {
+				m := bareParamRe.FindStringSubmatch(sub.argT[i])
+				if m == nil {
+					continue
+				}
+				pk, _ := strconv.Atoi(m[1])
+				start, end := verbSpan(ns.format, i)
+				if pk >= len(args) || start < 0 || ns.format[start:end] != "%s" {
+					continue
+				}
+				if sf, sops, ok := flatTemplate(args[pk], 0); ok {
+					var st []string
+					for _, o := range sops {
+						st = append(st, c.term(fn, o))
+					}
+					ns.format = ns.format[:start] + sf + ns.format[end:]
+					ns.argT = append(append(append([]string{}, ns.argT[:i]...), st...), ns.argT[i+1:]...)
+				}
 			}
 			for _, t := range sub.origT {
 				ns.origT = append(ns.origT, c.substParams(fn, ci, t))
